@@ -6,7 +6,9 @@ from engine import run as R
 from engine import cells as CELLS
 
 LEVEL = "model_checking"
-PRESETS = {0: "state after reset()", 1: "all registers 0xffffffff", 2: "all registers 0x55aa55aa", 3: "sp=0", 4: "sp=1", 5: "sp=0xffff", 6: "sp=0xfffe"}
+PRESETS = {0: "state after reset()", 1: "all registers 0xffffffff", 2: "all registers 0x55aa55aa", 3: "sp=0", 4: "sp=1", 5: "sp=0xffff", 6: "sp=0xfffe",
+           7: "registers 0, 3, 6.. of the name list zero, the others all ones", 8: "registers 1, 4, 7.. zero, the others all ones",
+           9: "registers 2, 5, 8.. zero, the others all ones"}
 ENV_OPTS = CELLS.ENV_OPTS
 
 
@@ -104,7 +106,7 @@ def plan(quick):
         halves = [0] + ([1] if CELLS.unit(c) >= 4 and not quick else [])
         top = (1 << 16) - 16
         for half in halves:
-            for preset in ((0, 1, 3) if quick else (0, 1, 2, 3, 4, 5, 6)):
+            for preset in ((0, 1, 3, 7) if quick else (0, 1, 2, 3, 4, 5, 6, 7, 8, 9)):
                 for fill in (("00", "ff") if quick else ("00", "ff", "55aa", "7f80")):
                     jobs.append((c["index"], 0x1000, fill, half, preset))
             for preset in (0, 1):
